@@ -69,6 +69,18 @@ Definition op_of_term (t : term) : option op :=
   | _ => None
   end.
 
+(* validations of user subclasses (run after super().__post_init__()) *)
+Definition vrule_of_term (t : term) : option vrule :=
+  match t with
+  | TCon c args =>
+    if name_is c "VReject" then
+      match args with [TStr k; TStr f; v] => do v' <- pval_of_term v; Some (VReject k f v') | _ => None end
+    else if name_is c "VIdSuffix" then
+      match args with [TStr k; TStr suf] => Some (VIdSuffix k suf) | _ => None end
+    else None
+  | _ => None
+  end.
+
 (* ---------- observation ---------- *)
 (* how a node is named on both sides: first variable (ascending) whose tree contains it, and its first
    position in the pre-order of that tree *)
@@ -101,6 +113,7 @@ Definition tshape (s : kshape) : term :=
 Section Obs.
   Variable H : pystr -> pystr.
   Variable ct : ctable.
+  Variable late : st -> nat -> bool.
 
   Definition tcell (s : st) (a : nat) : term :=
     match cell_at s a with
@@ -193,7 +206,7 @@ Section Obs.
 
   (* one step: new state, new seen list, the observation; None = inadmissible operation / exhausted fuel *)
   Definition obs_step (s0 : st) (seen0 : list nat) (o : op) : option (st * list nat * term) :=
-    let '(s, r) := step H ct true s0 o in
+    let '(s, r) := step H ct late true s0 o in
     match r with
     | Bad | FuelOut => None
     | _ =>
@@ -232,17 +245,19 @@ Section Obs.
 End Obs.
 
 Definition hist_run (H : pystr -> pystr) (t : term) : term :=
-  match is_con "Hist" t with
-  | Some [ctt; nv; TList ops] =>
-    match ctable_of_term ctt, get_nat nv, map_opt op_of_term ops with
-    | Some ct, Some n, Some l =>
-      match obs_run H ct (init_st n) [] l with
+  let go ctt rules nv ops :=
+    match ctable_of_term ctt, map_opt vrule_of_term rules, get_nat nv, map_opt op_of_term ops with
+    | Some ct, Some rl, Some n, Some l =>
+      match obs_run H ct (late_of ct rl) (init_st n) [] l with
       | Some (s, ts) => tcon "Out" [TList ts; tfrozen ct s]
       | None => terr "inadmissible history (ill-formed operation) or exhausted fuel"
       end
-    | _, _, _ => terr "Hist: cannot decode"
-    end
-  | _ => terr "Hist: bad input"
+    | _, _, _, _ => terr "Hist: cannot decode"
+    end in
+  match is_con "Hist" t, is_con "HistV" t with
+  | Some [ctt; nv; TList ops], _ => go ctt [] nv ops
+  | _, Some [ctt; TList rules; nv; TList ops] => go ctt rules nv ops      (* with validating classes *)
+  | _, _ => terr "Hist: bad input"
   end.
 
 Definition run_C03 (H : pystr -> pystr) (t : term) : term := hist_run H t.
